@@ -178,18 +178,25 @@ class Gen:
                             c2 = r.random()
                             if c2 < 0.25:
                                 adjs[s] = None
+                            elif c2 < 0.32:
+                                adjs[s] = {r.choice(["mul", "ovr"]): "0"}      # an adjustment to exactly zero
                             elif c2 < 0.75:
                                 adjs[s] = {"mul": self.rate(allow_time=not want.get("no_time", False))}
                             else:
                                 adjs[s] = {"ovr": self.rate(allow_time=not want.get("no_time", False))}
                         sf, df = {}, {}
-                        if used and r.random() < 0.3:
+                        if used and r.random() < 0.4:
                             prev = r.choice(used)
                             filt = {prev: r.choice(strat_strata[prev])}
-                            if r.random() < 0.5:
+                            mode = r.random()
+                            if mode < 0.35:
                                 sf = filt
-                            else:
+                            elif mode < 0.7:
                                 df = filt
+                            else:
+                                # both ends filtered, possibly on different stratifications / strata
+                                prev2 = r.choice(used)
+                                sf, df = filt, {prev2: r.choice(strat_strata[prev2])}
                         fadj.append([fn, adjs, sf, df])
                         meta["adj"].append("filtered" if (sf or df) else "plain")
                         if r.random() < 0.2:
